@@ -19,7 +19,9 @@ fn subset(rng: &mut Rng, xs: &[u32], style: u64) -> Vec<u32> {
     }
 }
 
-pub fn generate(rng: &mut Rng, kind: Kind) -> Generated {
+pub fn generate(rng: &mut Rng, kind: Kind) -> Generated { generate_opts(rng, kind, false) }
+
+pub fn generate_opts(rng: &mut Rng, kind: Kind, force_sparse: bool) -> Generated {
     // the soft family alternates between general and tight (conflict-heavy) universes
     let soft = kind == Kind::Soft;
     // the lazy family: no availability hints at all, more locks and constrains (C09's setting)
@@ -27,7 +29,7 @@ pub fn generate(rng: &mut Rng, kind: Kind) -> Generated {
     let kind = if lazy { if rng.chance(1, 2) { Kind::General } else { Kind::Tight } } else { kind };
     let kind = if soft && rng.chance(1, 2) { Kind::Tight } else { kind };
     let n_names = match kind { Kind::Tight => rng.range(3, 6), _ => rng.range(1, 8) } as u32;
-    let sparse = rng.chance(1, 6);
+    let sparse = force_sparse || rng.chance(1, 6);
     // --- solvable ids
     let mut cands_per_name: Vec<usize> = (0..n_names).map(|_| {
         if kind == Kind::Tight { rng.range(2, 5) as usize } else if rng.chance(1, 8) { rng.range(5, 9) as usize } else { rng.range(1, 4) as usize }
